@@ -35,7 +35,8 @@ def extra_builds(tier):
 
 
 def bounds(tier):
-    return {"tree_depth": "4 (5 for Poly1305, Hmac<Sha256>, legacy Sha3_256)" if tier == "thorough" else 3, "graph_bytes": "4 blocks", "graph_resets": 2, "objects": 2}
+    return {"tree_depth": "4 (5 for Poly1305, Hmac<Sha256>, legacy Sha3_256)" if tier == "thorough" else 3, "graph_bytes": "4 blocks", "graph_resets": 2, "objects": 2,
+            "hmac_key_lengths": "5, B, B+9", "refused_result_letter": True, "input_str": True, "components": "C05 limb steering / corner / crafted inputs"}
 
 
 def validate_models(tier):
